@@ -45,7 +45,7 @@ PROPS = {
         models=[dict(module="MC_Mersenne", about="end-around-carry addition and rotation modulo 2^5-1, every operand pair: equals arithmetic mod 2^w-1"),
                 dict(module="MC_ZUCSplit", about="request layer refines the word-at-a-time stream for every composition (toy totals), zero-length requests included")],
         stages=[dict(suite="zuc", trace="TraceZUC", plan=dict(module="PlanZUC", cfg_quick="PlanZUC_q", cfg_thorough="PlanZUC_t"),
-                     required_classes={"both": ["zuc.req/first", "zuc.req/continued", "zuc.req/zero-length"]})],
+                     required_classes={"both": ["zuc.req/first", "zuc.req/continued", "zuc.req/zero-length", "zuc.new/new.add31-boundary"]})],
         assumptions=["ZUC.tla transcribes GM/T 0001 / ZUC v1.6 (three official vectors and the structural S-box definitions as ASSUMEs)"],
     ),
     "C18": dict(
